@@ -67,6 +67,10 @@ class Impl:
         return cu.get_DIE_from_refaddr(off)
 
     def do(self, act, w):
+        with core.guard(10):
+            return self._do(act, w)
+
+    def _do(self, act, w):
         self.perturb(w)
         k = act[0]
         if k == 'GetCUAt':
@@ -194,6 +198,9 @@ def _replay_graph(run, cfg, res):
         return True
 
     for s, es in out.items():
+        if run.nviol >= 300:
+            run.notes.append('%s: replay stopped after %d violations (verdict decided)' % (cfg, run.nviol))
+            break
         if s not in path:
             raise core.MachineryError('state unreachable in emitted graph')
         try:
